@@ -203,6 +203,46 @@ def op_snapshot(ctx, pairs):
     ctx.comm.Barrier()
 
 
+VICTIM_SRC = '''
+from esr.generation.simplifier import time_limit, TimeoutException
+import sympy
+
+def helper(v):
+    w = v + 1
+    return w * 2
+
+def work(log, n):
+    x = sympy.Symbol('x')
+    for i in range(n):
+        keep = i
+        try:
+            with time_limit(5):
+                a = [helper(j) for j in range(3)]
+                b = sum(a)
+                e = ((x + i) ** 3).expand()
+                c = [k for k in a if k > 2]
+                log.append(('done', i))
+        except TimeoutException:
+            log.append(('caught', i))
+    return log
+'''
+
+
+def op_victim(ctx, n=2):
+    """Self-test of the injector on the running interpreter: every planned fault inside the victim's timed
+    blocks must be caught by the enclosing `except TimeoutException` - none may escape or be lost."""
+    import importlib
+    path = ctx.scratch + '/pkg/victim_mod.py'
+    if ctx.rank == 0 and not os.path.exists(path):
+        with open(path, 'w') as f:
+            f.write(VICTIM_SRC)
+    ctx.comm.Barrier()
+    import victim_mod
+    importlib.reload(victim_mod) if False else None
+    log = victim_mod.work([], n)
+    ctx.report['victim'] = log
+
+
 def op_barrier(ctx):
     ctx.comm.Barrier()
 
@@ -214,7 +254,7 @@ def op_check_results(ctx, runname, compl, **kw):
 
 
 OPS = dict(gen=op_gen, npseed=op_npseed, like=op_like, fit=op_fit, load_subs=op_load_subs,
-           slices=op_slices, simp_inv=op_simp_inv, subs_templates=op_subs_templates, snapshot=op_snapshot, barrier=op_barrier, check_results=op_check_results)
+           slices=op_slices, simp_inv=op_simp_inv, subs_templates=op_subs_templates, snapshot=op_snapshot, victim=op_victim, barrier=op_barrier, check_results=op_check_results)
 
 
 def run_program(program, rank, size, scratch, report, comm, fs_state=None):
